@@ -1,0 +1,87 @@
+//go:build verif
+// +build verif
+
+package erpc
+
+import (
+	"sync/atomic"
+)
+
+// Verification hooks (build tag `verif`). They never change behaviour: a gate
+// only calls back into the harness at a point between two critical sections,
+// where the scheduler could equally pre-empt the goroutine.
+
+type verifGateFunc func(point string, sess Session)
+type verifStatusFunc func(sess Session, old, new int32)
+
+var (
+	verifGateFn   atomic.Value // verifGateFunc
+	verifStatusFn atomic.Value // verifStatusFunc
+)
+
+// VerifSetGate installs (or with nil removes) the gate callback.
+func VerifSetGate(fn func(point string, sess Session)) {
+	verifGateFn.Store(verifGateFunc(fn))
+}
+
+// VerifSetStatusObserver installs (or with nil removes) the status transition observer.
+func VerifSetStatusObserver(fn func(sess Session, old, new int32)) {
+	verifStatusFn.Store(verifStatusFunc(fn))
+}
+
+func verifGate(point string, s *session) {
+	fn, _ := verifGateFn.Load().(verifGateFunc)
+	if fn == nil {
+		return
+	}
+	if s == nil {
+		fn(point, nil)
+		return
+	}
+	fn(point, s)
+}
+
+func verifStatus(s *session, old, new int32) {
+	fn, _ := verifStatusFn.Load().(verifStatusFunc)
+	if fn != nil {
+		fn(s, old, new)
+	}
+}
+
+// VerifPendingCalls returns the number of calls registered in the session's call table.
+func VerifPendingCalls(sess Session) int {
+	s, ok := sess.(*session)
+	if !ok {
+		return -1
+	}
+	return s.callCmdMap.Len()
+}
+
+// VerifStatus returns the raw status word of the session.
+func VerifStatus(sess Session) int32 {
+	s, ok := sess.(*session)
+	if !ok {
+		return -1
+	}
+	return s.getStatus()
+}
+
+// VerifStatusNames names the raw status words.
+var VerifStatusNames = []string{"preparing", "ok", "activeClosing", "activeClosed", "passiveClosing", "passiveClosed", "redialing", "redialFailed"}
+
+// VerifSentinels returns the package-level predefined statuses.
+func VerifSentinels() map[string]*Status {
+	return map[string]*Status{
+		"statInvalidOpError":      statInvalidOpError,
+		"statUnknownError":        statUnknownError,
+		"statDialFailed":          statDialFailed,
+		"statConnClosed":          statConnClosed,
+		"statWriteFailed":         statWriteFailed,
+		"statBadMessage":          statBadMessage,
+		"statNotFound":            statNotFound,
+		"statCodeMtypeNotAllowed": statCodeMtypeNotAllowed,
+		"statHandleTimeout":       statHandleTimeout,
+		"statInternalServerError": statInternalServerError,
+		"statUnpreparedError":     statUnpreparedError,
+	}
+}
